@@ -12,6 +12,65 @@ use serde_json::Value;
 pub struct Case {
     pub entropy: u64,
     pub program: Program,
+    /// long haul: instead of `program`, a fixed small loop nest runs tens of thousands of rounds without event
+    /// recording (bookkeeping that grows or is walked once per round shows only there)
+    #[serde(default)]
+    pub long: Option<LongHaul>,
+}
+
+#[derive(Serialize, Deserialize, Clone, Debug, PartialEq)]
+pub struct LongHaul {
+    pub rounds: u32,
+    /// 0 while inside the taken branch of if/else, an else-less if in its body; 1 while inside while; 2 for-in over a
+    /// range inside if/else; 3 (functions) a function called once per round
+    pub shape: u8,
+}
+
+fn long_haul_text(l: &LongHaul) -> String {
+    match l.shape {
+        0 => "if true\n    while cnd 0 false\n        if true\n            x1 = set b\n        end\n    end\nelse\n    emit else-taken\nend\nemit after\n".to_string(),
+        1 => "while cnd 1 false\n    while cnd 0 false\n        x1 = set b\n    end\nend\nemit after\n".to_string(),
+        2 => format!("r = range 0 {}\nif true\n    for i in ${{r}}\n        if true\n            x1 = set b\n        end\n    end\nelse\n    emit else-taken\nend\nrelease ${{r}}\nemit after\n", l.rounds),
+        _ => "fn f0\n    if true\n        x1 = set b\n    end\n    return ${1}\nend\nwhile cnd 0 false\n    x2 = f0 v\nend\nemit after\n".to_string(),
+    }
+}
+
+fn run_long_haul(l: &LongHaul) -> Verdict {
+    use duckscript::types::env::Env;
+    let text = long_haul_text(l);
+    let mut context = gen::sdk_context();
+    gen::add_harness(&mut context.commands);
+    sim::decorate(&mut context.commands);
+    // site 0 answers true `rounds` times, site 1 (the outer loop of shape 1) twice
+    let world = Program { fns: vec![], arrays: vec![], main: vec![], cnd: vec![vec![true; l.rounds as usize], vec![true, true]], fail_leaf: vec![], forever: false, crlf: false };
+    gen::install_world(&world, None);
+    sim::with_core(|c| {
+        c.quiet = true;
+        c.budget = 40_000_000;
+        c.probe("long-haul-loop");
+    });
+    sim::phase("long haul loop");
+    let env = Env::new(Some(Box::new(sim::SimWriter::new("out", vec![]))), Some(Box::new(sim::SimWriter::new("err", vec![]))), None);
+    let res = std::panic::catch_unwind(std::panic::AssertUnwindSafe(|| duckscript::runner::run_script(&text, context, Some(env))));
+    match res {
+        Err(_) => {
+            let pm = sim::take_panic().unwrap_or_default();
+            Verdict::Fail { class: format!("panic@{}", sim::panic_site(&pm)), detail: pm }
+        }
+        Ok(Err(e)) => Verdict::Fail { class: "run-failed".to_string(), detail: format!("long haul ({} rounds, shape {}): {}", l.rounds, l.shape, e) },
+        Ok(Ok(ctx)) => {
+            if sim::with_core(|c| c.budget_hit) {
+                return Verdict::Fail { class: "no-termination".to_string(), detail: format!("long haul ({} rounds, shape {}) exhausted the step budget", l.rounds, l.shape) };
+            }
+            if gen::emitted() != 1 {
+                return Verdict::Fail { class: "trace-divergence".to_string(), detail: format!("long haul ({} rounds, shape {}): {} emits instead of the single one after the loop", l.rounds, l.shape, gen::emitted()) };
+            }
+            if ctx.variables.get("x1").map(|v| v.as_str()) != Some("b") {
+                return Verdict::Fail { class: "final-variables".to_string(), detail: format!("long haul: x1 = {:?}", ctx.variables.get("x1")) };
+            }
+            Verdict::Pass
+        }
+    }
 }
 
 pub struct Structured {
@@ -109,14 +168,18 @@ impl Prop for Structured {
             ..Default::default()
         };
         let program = gen::generate_program(rng, &opts);
-        serde_json::to_value(Case { entropy: rng.next_u64(), program }).unwrap()
+        let long = if rng.chance(1, 15_000) { Some(LongHaul { rounds: 70_000 + rng.below(60_000) as u32, shape: if self.functions { 3 } else { rng.below(3) as u8 } }) } else { None };
+        serde_json::to_value(Case { entropy: rng.next_u64(), program, long }).unwrap()
     }
     fn execute(&self, case: &Value, _env: &WorkerEnv) -> Outcome {
         let case: Case = match serde_json::from_value(case.clone()) {
             Ok(c) => c,
             Err(e) => return Outcome::collect(Verdict::Inconclusive { reason: format!("bad case: {}", e) }, false),
         };
-        let verdict = run_and_compare(&case.program);
+        let verdict = match &case.long {
+            Some(l) => run_long_haul(l),
+            None => run_and_compare(&case.program),
+        };
         Outcome::collect(verdict, false)
     }
     fn shrink(&self, case: &Value) -> Vec<Value> {
@@ -124,9 +187,19 @@ impl Prop for Structured {
             Ok(c) => c,
             Err(_) => return vec![],
         };
-        let mut out: Vec<Case> = gen::shrink_program(&case.program).into_iter().map(|p| Case { entropy: case.entropy, program: p }).collect();
+        if let Some(l) = &case.long {
+            // fewer rounds
+            let mut out = vec![];
+            for r in [l.rounds / 2, l.rounds * 3 / 4] {
+                if r >= 1000 {
+                    out.push(serde_json::to_value(Case { entropy: 0, program: Program { fns: vec![], arrays: vec![], main: vec![], cnd: vec![], fail_leaf: vec![], forever: false, crlf: false }, long: Some(LongHaul { rounds: r, shape: l.shape }) }).unwrap());
+                }
+            }
+            return out;
+        }
+        let mut out: Vec<Case> = gen::shrink_program(&case.program).into_iter().map(|p| Case { entropy: case.entropy, program: p, long: None }).collect();
         if case.entropy != 0 {
-            out.push(Case { entropy: 0, program: case.program.clone() });
+            out.push(Case { entropy: 0, program: case.program.clone(), long: None });
         }
         out.into_iter().map(|c| serde_json::to_value(c).unwrap()).collect()
     }
